@@ -338,6 +338,18 @@ class Interp:
             return model(*args, **kwargs)
         if isinstance(f, type):
             return self.instantiate(f, args, kwargs)
+        if getattr(f, "__name__", "") == "join" and isinstance(getattr(f, "__self__", None), str) and len(args) == 1:
+            items = self.iterate_to_list(args[0])
+            if any(getattr(x, "__pyvc_abstract__", False) for x in items):
+                # sep.join(abstract strings): left-to-right concatenation through the objects' own "+" models
+                acc = None
+                for x in items:
+                    if acc is None:
+                        acc = x
+                    else:
+                        acc = self.binop(ast.Add(), self.binop(ast.Add(), acc, f.__self__), x)
+                return "" if acc is None else acc
+            return f.__self__.join(items)
         if getattr(getattr(f, "__self__", None), "__pyvc_abstract__", False):
             return f(*args, **kwargs)
         if getattr(f, "__pyvc_native__", False):
